@@ -12,7 +12,7 @@ pub struct Case {
     pub name: String,
     pub op: OpKind,
     /// 0 plain, 1 sharded(3), 2 stack plain writer + plain reader, 3 stack sharded writer + sharded reader,
-    /// 4 stack without writer + plain reader, 5 read-only stack
+    /// 4 stack without writer + plain reader, 5 read-only stack, 6 sharded with 2^17 shards (5-digit shard ids)
     pub fe: u8,
     pub small_capacity: bool,
 }
@@ -66,10 +66,11 @@ fn gen_case() -> impl Strategy<Value = Case> {
     let ops = prop::sample::select(vec![
         OpKind::Get, OpKind::Touch, OpKind::Set, OpKind::Put, OpKind::SetTemp, OpKind::PutTemp, OpKind::Ensure, OpKind::GouAccept, OpKind::GouPromote, OpKind::GouReplace,
     ]);
-    (gen_name(), ops, 0u8..6, any::<bool>()).prop_map(|(name, op, fe, small)| {
+    (gen_name(), ops, 0u8..7, any::<bool>()).prop_map(|(name, op, fe, small)| {
         // plain/sharded/read-only handles only have the four basic operations
         let (op, fe) = match fe {
             0 | 1 if !op.is_plain_api() => (op, 2 + (fe % 2)),
+            6 if !op.is_plain_api() => (op, 3),
             5 if !matches!(op, OpKind::Get | OpKind::Touch) => (op, 4),
             _ => (op, fe),
         };
@@ -93,6 +94,7 @@ fn layout(c: &Case) -> Layout {
         1 => Layout { cache_spec: Some(DirSpec::Sharded { dir: "cache".into(), shards: 3, cap: cap.max(3) }), ro_spec: None },
         2 => Layout { cache_spec: Some(DirSpec::Plain { dir: "cache".into(), cap }), ro_spec: Some(DirSpec::Plain { dir: "ro".into(), cap: 0 }) },
         3 => Layout { cache_spec: Some(DirSpec::Sharded { dir: "cache".into(), shards: 3, cap: cap.max(3) }), ro_spec: Some(DirSpec::Sharded { dir: "ro".into(), shards: 3, cap: 0 }) },
+        6 => Layout { cache_spec: Some(DirSpec::Sharded { dir: "cache".into(), shards: 1 << 17, cap: if c.small_capacity { 1 << 17 } else { 1 << 40 } }), ro_spec: None },
         _ => Layout { cache_spec: None, ro_spec: Some(DirSpec::Plain { dir: "ro".into(), cap: 0 }) },
     }
 }
@@ -144,8 +146,15 @@ pub fn judge(root: &Path, c: &Case) -> Result<(), (String, String)> {
                 // application data may also sit at the top of a sharded cache directory
                 plant_file(&root.join(dir).join(".appdata"), b"application data", 0o644);
                 plant_file(&root.join(dir).join("sub").join("inner"), b"nested sentinel", 0o444);
-                for s in 0..*shards {
-                    let d = root.join(dir).join(crate::shardoracle::dir_name(s as u64));
+                // (with very many shards only the key's two candidate shards are populated)
+                let shard_ids: Vec<u64> = if *shards > 64 {
+                    let (a, b) = crate::shardoracle::shards(key.hash, key.sec, *shards);
+                    vec![a, b]
+                } else {
+                    (0..*shards as u64).collect()
+                };
+                for s in shard_ids {
+                    let d = root.join(dir).join(crate::shardoracle::dir_name(s));
                     populate(&d);
                     if Some(spec) == lay.cache_spec.as_ref() {
                         cache_dirs.push(d);
@@ -160,7 +169,7 @@ pub fn judge(root: &Path, c: &Case) -> Result<(), (String, String)> {
     let (res, ev) = traced(&world, || {
         script_rng(true, 1);
         let h = match c.fe {
-            0 | 1 => open_dir(root, lay.cache_spec.as_ref().unwrap()),
+            0 | 1 | 6 => open_dir(root, lay.cache_spec.as_ref().unwrap()),
             5 => open_readonly(root, &[lay.ro_spec.clone().unwrap()], Checker::None),
             _ => open_stack(root, &StackSpec { writer: lay.cache_spec.clone(), readers: lay.ro_spec.iter().cloned().collect(), checker: Checker::None, auto_sync: true }),
         };
@@ -386,7 +395,7 @@ pub fn run(ctx: &Ctx) -> Report {
             for f in &fs {
                 rep.label(f);
             }
-            rep.label(["fe:plain", "fe:sharded", "fe:stack plain+reader", "fe:stack sharded+reader", "fe:stack no writer", "fe:read-only"][c.fe as usize]);
+            rep.label(["fe:plain", "fe:sharded", "fe:stack plain+reader", "fe:stack sharded+reader", "fe:stack no writer", "fe:read-only", "fe:sharded 2^17 shards"][c.fe as usize]);
             if !fs.is_empty() && rep.samples.len() < 4 && rep.evaluations % 501 == 3 {
                 let s = json!({"case": c});
                 rep.sample(s);
